@@ -227,7 +227,7 @@ def one_element(ctx, algebra, S, names, theta):
     # --- class wrappers
     C = {'so2': sm.SO2, 'se2': sm.SE2, 'so3': sm.SO3, 'se3': sm.SE3}[algebra]
     cn = C.__name__
-    forms = [('vec', lambda: S.copy()), ('mat', lambda: to_matrix(S, algebra))]
+    forms = [('vec', lambda: S.copy()), ('mat', lambda: to_matrix(S, algebra)), ('mat,check=False', None), ('vec,check=False', None)]
     if algebra in ('se2', 'se3', 'so3'):
         forms.append(('list', lambda: S.tolist()))
     for form, mk in forms:
@@ -235,7 +235,10 @@ def one_element(ctx, algebra, S, names, theta):
         if ctx.want(cid):
             ctx.case(cid, key=(key, 'Exp', form), trivial=triv)
             P = dict(P0, form=form)
-            ok, X = call(C.Exp, mk())
+            if mk is None:
+                ok, X = call(lambda: C.Exp(to_matrix(S, algebra) if form.startswith('mat') else S.copy(), check=False))
+            else:
+                ok, X = call(C.Exp, mk())
             if not ok:
                 ctx.fail(cid, cn + '.Exp', 'raises:' + type(X).__name__, P, '%s.Exp(%s) raised %r' % (cn, form, X))
             elif type(X) is not C or len(X.data) != 1:
@@ -476,6 +479,35 @@ def mixed_sequences(ctx):
     import spatialmath as sm
     kinds3 = [('I', np.zeros(6)), ('T', np.r_[1.0, -2.0, 0.5, 0, 0, 0]), ('R', np.r_[0.3, 0.2, -0.1, 0.4, -0.5, 0.6]), ('R0', np.r_[0, 0, 0, 0, 0, 1.2]), ('H', np.r_[0.5, 0, 0, math.pi - 1e-3, 0, 0])]
     kinds2 = [('I', np.zeros(3)), ('T', np.r_[1.0, -2.0, 0.0]), ('R', np.r_[0.3, 0.2, 0.7]), ('R-', np.r_[0, 0, -1.2])]
+    # rotations only: identity, generic, within 1e-3 / 1e-10 of a half turn about a generic axis, exact half turns (symmetric matrices)
+    ga = alph.unit((1, 2, 3))
+    kso3 = [('I', np.zeros(3)), ('R', np.array([0.4, -0.5, 0.6])), ('H', (math.pi - 1e-3) * ga), ('H10', (math.pi - 1e-10) * ga), ('Hx', np.array([math.pi, 0, 0])), ('Hg', math.pi * ga)]
+    kso2 = [('I', np.zeros(1)), ('R', np.array([0.7])), ('H', np.array([math.pi - 1e-10])), ('Hx', np.array([math.pi])), ('R-', np.array([-1.2]))]
+    for algebra, kinds, C in (('so3', kso3, sm.SO3), ('so2', kso2, sm.SO2)):
+        cn = C.__name__
+        for N in (2, 3):
+            for combo in itertools.permutations(kinds, N):
+                if N == 3 and not alph.thin('.'.join(k for k, _ in combo), 'quick', 3, 3):
+                    continue
+                names = '.'.join(k for k, _ in combo)
+                Ss = [S_.copy() for _, S_ in combo]
+                refs = [ref_exp(S_, algebra) for S_ in Ss]
+                X = C([r.copy() for r in refs], check=False)
+                for tw in (True, False):
+                    cid = 'C03/%s/mixed/%s/%s.log/twist=%d' % (algebra, names, cn, tw)
+                    if not ctx.want(cid):
+                        continue
+                    ctx.case(cid, key=cid)
+                    P0 = dict(algebra=algebra, mode='mixed-sequence', N=N, twist=int(tw))
+                    ok, L = call(X.log, twist=tw)
+                    if not ok:
+                        ctx.fail(cid, cn + '.log', 'raises:' + type(L).__name__, P0, 'log on %s raised %r' % (names, L))
+                        continue
+                    if not isinstance(L, (list, np.ndarray)) or len(L) != N:
+                        ctx.fail(cid, cn + '.log', 'mismatch', dict(P0, what='count'), 'log of %d values gave %s' % (N, type(L).__name__))
+                        continue
+                    for j in range(N):
+                        check_log_output(ctx, cid, cn + '.log', dict(P0, j=j), L[j], tw, algebra, refs[j], Ss[j], float(np.linalg.norm(Ss[j])))
     for algebra, kinds, C, TW in (('se3', kinds3, sm.SE3, sm.Twist3), ('se2', kinds2, sm.SE2, sm.Twist2)):
         cn, tn = C.__name__, TW.__name__
         for N in (2, 3):
